@@ -263,7 +263,7 @@ func crashKeyGeneric(caseDesc, output string) (string, string) {
 }
 
 func init() {
-	full := GenOpts{MaxN: 6, Retries: true, Preconds: true, ContinueOn: true, Failures: true, MaxActive: true, Delay: true, RetryMsProb: 5}
+	full := GenOpts{MaxN: 6, Retries: true, Preconds: true, ContinueOn: true, Failures: true, MaxActive: true, Delay: true, Outputs: true, RetryMsProb: 5}
 	c01 := &dagFamily{prop: "C01", gen: full, nontrivial: func(spec *vexec.CaseSpec, out *vexec.Outcome, obl int64) bool {
 		ex := out.Executions()
 		for _, s := range spec.Steps {
